@@ -141,4 +141,38 @@ example : load fixed { healthy with versionOk := fun _ => false, warn := fun _ =
 /-- malformed *binary* plist: tolerated with a warning, as the code documents -/
 example : load fixed { healthy with plistVersion := fun _ => .error invalidFile } = .ok (3000000, 2, 4) := by decide
 
+/-! ### the whole `Document(path)` call: container loading, then the eager construction of sheets and tables -/
+
+/-- For all behaviours of the externals AND of the construction stage (which may raise anything at all when objects
+    are missing), `Document(path)` returns a document, or raises FileError / FileFormatError / UnsupportedError, or
+    re-raises a Warning that was escalated to an error. -/
+theorem document_open_closed {δ} (x : Ext) (build : Nat × Nat × Nat → PyM δ) :
+    (∃ d, openDocument fixed true x build = .ok d) ∨
+    (∃ e, openDocument fixed true x build = .error e ∧
+      (e = .FileError ∨ e = .FileFormatError ∨ e = .UnsupportedError ∨ x.isWarning e = true)) := by
+  rcases load_error_closed x with ⟨r, hr⟩ | ⟨e, he, hcls⟩
+  · cases hb : build r with
+    | ok d => exact Or.inl ⟨d, by simp [openDocument, hr, hb]⟩
+    | error e =>
+      right
+      by_cases h : (isLibraryError e || x.isWarning e) = true
+      · refine ⟨e, by simp [openDocument, hr, hb, h], ?_⟩
+        rcases Bool.or_eq_true _ _ |>.mp h with h1 | h2
+        · cases e <;> simp_all [isLibraryError]
+        · exact Or.inr (Or.inr (Or.inr h2))
+      · exact ⟨.FileFormatError, by simp [openDocument, hr, hb, h], Or.inr (Or.inl rfl)⟩
+  · exact Or.inr ⟨e, by simp [openDocument, he], hcls⟩
+
+/-- what the construction stage returns is returned unchanged (the boundary never swallows a document). -/
+theorem document_open_ok {δ} (x : Ext) (build : Nat × Nat × Nat → PyM δ) (r : Nat × Nat × Nat) (d : δ)
+    (hl : load fixed x = .ok r) (hb : build r = .ok d) : openDocument fixed true x build = .ok d := by
+  simp [openDocument, hl, hb]
+
+/-- before the repair a missing object escaped as whatever the look-up raised: `Index/Document.iwa` with a broken
+    chunk header is not an IWA file, so it is kept as a blob, object 1 is absent and `sheet_ids()` raises KeyError -/
+example : openDocument fixed false healthy (fun _ => (.error .KeyError : PyM Nat)) = .error .KeyError := by decide
+example : openDocument fixed true healthy (fun _ => (.error .KeyError : PyM Nat)) = .error .FileFormatError := by decide
+example : openDocument fixed true healthy (fun _ => (.error .UnsupportedError : PyM Nat)) = .error .UnsupportedError := by decide
+example : openDocument fixed true healthy (fun st => (.ok st.2.1 : PyM Nat)) = .ok 2 := by decide
+
 end NumbersModel.Props.C17
